@@ -1,6 +1,7 @@
 /* Proof unit for the UTF-8 validator (C05): the real source/encoding.c, then the contracts (they need the private struct). */
 #include "contracts/encoding.h"
 #include "source/encoding.c"
+#include "source/byte_buf.c" /* bodies of the small cursor helpers, in case the code under proof uses them */
 #include "contracts/encoding_utf8.h"
 #include "units/C05/plain_stubs.h"
 
@@ -119,4 +120,27 @@ void h_utf8_chunking(void) {
     __CPROVER_assert(!ok || (whole.final == AWS_OP_SUCCESS) == (s.rem == 0), "finalize accepts exactly complete texts");
     if (ok && n == UTF8_N && cnt >= 2 && a > 0 && b > a && b < n) CANARY("valid text, three non-empty chunks");
     if (!ok) CANARY("invalid text");
+}
+
+/* one-shot form vs. the incremental decoder on the same text (texts up to UTF8_N bytes, every byte value): same verdict, same
+ * number of reported code points, same code points - i.e. the one-shot entry point has no private shortcut around the
+ * state machine or the callback */
+void h_utf8_oneshot(void) {
+    uint8_t t[UTF8_N];
+    for (size_t k = 0; k < UTF8_N; ++k) t[k] = nondet_u8();
+    size_t n = nondet_size_t();
+    __CPROVER_assume(n <= UTF8_N);
+    struct fold_result inc;
+    run_chunks(&inc, t, n, n, n, 0, 0, 0);
+    struct aws_utf8_decoder_options opt = {.on_codepoint = s_record, .user_data = NULL};
+    r_count = 0; r_last = 0;
+    for (size_t k = 0; k < UTF8_N + 1; ++k) r_cps[k] = 0;
+    int one = aws_decode_utf8((struct aws_byte_cursor){.len = n, .ptr = t}, &opt);
+    __CPROVER_assert((one == AWS_OP_SUCCESS) == (inc.verdict == AWS_OP_SUCCESS && inc.final == AWS_OP_SUCCESS), "one-shot verdict = update on the whole text followed by finalize");
+    if (one == AWS_OP_SUCCESS) {
+        __CPROVER_assert(r_count == inc.count, "one-shot form reports as many code points as the incremental decoder");
+        for (size_t k = 0; k < UTF8_N + 1; ++k) __CPROVER_assert(r_cps[k] == inc.cps[k], "one-shot form reports the same code points");
+        if (n == UTF8_N && r_count == UTF8_N) CANARY("all-ASCII text of full length");
+        if (r_count < n) CANARY("text with a multi-byte code point");
+    } else CANARY("invalid text");
 }
